@@ -288,7 +288,7 @@ func isPkgLevel(p *ast.Package, id *ast.Ident) bool {
 	return false
 }
 
-// localizeTimes moves every non-zero time.Time reachable from v into a fixed non-UTC zone
+// localizeTimes moves every time.Time (the zero instant included: it stays IsZero) reachable from v into a fixed non-UTC zone
 // (same instant): Marshal must not care, and must not write the value back.
 var verifZone = time.FixedZone("verif", 3600)
 
@@ -301,7 +301,7 @@ func localizeTimes(v reflect.Value, fixed bool) {
 	case reflect.Struct:
 		if v.Type() == timeType {
 			t := v.Interface().(time.Time)
-			if !t.IsZero() && v.CanSet() {
+			if v.CanSet() {
 				v.Set(reflect.ValueOf(t.In(loc)))
 			}
 			return
